@@ -7,7 +7,7 @@ pub fn w() {
     is_sync::<Mutex<i32>>();
     is_send::<Mutex<i32>>();
     is_sync::<Mutex<std::cell::Cell<i32>>>();
-    is_sync::<Mutex<Rc<i32>>>(); //~ E0277 Mutex<Rc<_>> is not Sync
+    is_sync::<Mutex<Rc<i64>>>(); //~ E0277 Mutex<Rc<_>> is not Sync
     is_send::<Mutex<Rc<i32>>>(); //~ E0277 Mutex<Rc<_>> is not Send
 }
 pub fn w2() {
